@@ -7,6 +7,7 @@ package zzverifrt
 // are inert natively.
 
 import (
+	"io"
 	"net/http"
 	"strings"
 )
@@ -142,3 +143,69 @@ func InstallPublicSuffixModel() {
 		return domain[1+strings.LastIndex(domain, "."):], false
 	})
 }
+
+// EOFBody is a response body that runs a callback when it reports EOF for the
+// first time; the HTTP wire model uses it to publish trailer values only after
+// the body has been read, as net/http does.
+type EOFBody struct {
+	R     io.Reader
+	AtEOF func()
+	done  bool
+}
+
+func (b *EOFBody) Read(p []byte) (int, error) {
+	n, err := b.R.Read(p)
+	if err == io.EOF && !b.done {
+		b.done = true
+		if b.AtEOF != nil {
+			b.AtEOF()
+		}
+	}
+	return n, err
+}
+
+func (b *EOFBody) Close() error { return nil }
+
+// WireBody decodes the body part of the M-http-wire request format lazily from
+// the reader the request head was parsed from (as net/http's request bodies read
+// lazily from the connection's bufio.Reader): a sequence of chunks, each a length
+// byte followed by that many bytes, ended by a zero length byte.
+type WireBody struct {
+	R         io.Reader
+	remaining int
+	done      bool
+}
+
+func (b *WireBody) Read(p []byte) (int, error) {
+	if b.done {
+		return 0, io.EOF
+	}
+	if len(p) == 0 {
+		return 0, nil
+	}
+	if b.remaining == 0 {
+		var l [1]byte
+		if _, err := io.ReadFull(b.R, l[:]); err != nil {
+			b.done = true
+			return 0, io.ErrUnexpectedEOF
+		}
+		if l[0] == 0 {
+			b.done = true
+			return 0, io.EOF
+		}
+		b.remaining = int(l[0])
+	}
+	n := len(p)
+	if n > b.remaining {
+		n = b.remaining
+	}
+	n, err := io.ReadFull(b.R, p[:n])
+	b.remaining -= n
+	if err != nil {
+		b.done = true
+		return n, io.ErrUnexpectedEOF
+	}
+	return n, nil
+}
+
+func (b *WireBody) Close() error { return nil }
